@@ -17,6 +17,13 @@ Section Erg.
   Fixpoint pushn (n : nat) (mu : St -> R) : St -> R :=
     match n with O => mu | S k => push (pushn k mu) end.
 
+  (* m-step kernel: P then (m-1 steps) *)
+  Fixpoint kpow (m : nat) (x y : St) : R :=
+    match m with
+    | O => if eqb x y then 1 else 0
+    | S k => sumR (fun z => P x z * kpow k z y) states
+    end.
+
   (* l1 distance (twice the total variation distance) read on `states` *)
   Definition l1 (mu nu : St -> R) : R := sumR (fun x => Rabs (mu x - nu x)) states.
 
